@@ -40,8 +40,10 @@ MENU = [
     ["assert NT(a=1, b=[2]) == snapshot(NT(a=1, b=[]))"],
 ]
 # a test whose comparison raises inside the list alignment must not disturb the snapshots of later tests
-RAISING_FIRST = ("class Boom:\n    def __eq__(self, other):\n        raise ValueError('boom')\n    def __repr__(self):\n        return 'Boom()'\n\n\n"
-                 "def test_aa_raises():\n    try:\n        assert [Boom(), 2] == snapshot([1, 2, 3])\n    except ValueError:\n        pass\n\n\n")
+RAISING_FIRST = ("class Strict:\n    def __init__(self, n):\n        self.n = n\n    def __eq__(self, other):\n        if not isinstance(other, Strict):\n"
+                 "            raise TypeError('cannot compare Strict with %s' % type(other).__name__)\n        return self.n == other.n\n"
+                 "    def __repr__(self):\n        return 'Strict(%d)' % self.n\n\n\n"
+                 "def test_aa_raises():\n    try:\n        assert [Strict(1), 2] == snapshot([1, 2, 3])\n    except TypeError:\n        pass\n\n\n")
 
 
 def bounds(tier):
